@@ -168,7 +168,7 @@ def _build(repo, features, fdir, key, nfiles, slot, t0):
         os.rename(tmp, fdir)
     except OSError:
         shutil.rmtree(tmp, ignore_errors=True)
-    _gc(os.path.join(CACHE, "facts"), keep=150)
+    _gc(os.path.join(CACHE, "facts"), keep=320)
 
 
 def _gc(d, keep):
